@@ -29,7 +29,7 @@ func (c01) Meta() fw.Meta {
 			"raw slot state is read through the live handle (GetAllRawUnsortedPoints) and cross-checked against the harness' own parse of the file bytes at every sync/reopen",
 			"layouts: 1-4 archives, steps 1..3600*60, rings of 1..1500 slots (thorough: a few files > 4 MiB)",
 		},
-		Obligations: []string{"stale_lap_nan_reads", "ring_end_crossing_reads", "page_straddle_slot_reads", "whole_ring_reads", "ring1", "ring2", "negative_distance_reads", "reopen_then_read", "jump_longer_than_retention", "nan_payload_roundtrip", "distance_beyond_31_bits_reads"},
+		Obligations: []string{"stale_lap_nan_reads", "ring_end_crossing_reads", "page_straddle_slot_reads", "whole_ring_reads", "ring1", "ring2", "negative_distance_reads", "reopen_then_read", "jump_longer_than_retention", "nan_payload_roundtrip", "distance_beyond_31_bits_reads", "file_over_1024_pages"},
 	}
 }
 
@@ -97,7 +97,7 @@ func (c01) Run(c *fw.Ctx) {
 	switch {
 	case c.Index%7 == 3:
 		lo.multiPage = true
-	case c.Tier == "thorough" && c.Index%1500 == 11:
+	case (c.Tier == "thorough" && c.Index%1500 == 11) || (c.Tier != "thorough" && c.Index == 11):
 		// a file larger than 1024 pages: filebuffer splits vector I/O there
 		lo = layoutOpts{minArch: 1, maxArch: 2, maxPoints0: 360000, multiPage: true}
 		big = true
@@ -112,6 +112,7 @@ func (c01) Run(c *fw.Ctx) {
 		l = genLayout(r, lo)
 	}
 	if big {
+		c.Count("file_over_1024_pages", 1)
 		l.Archs[0].Points = uint32(350000 + r.Intn(10000))
 		if len(l.Archs) > 1 {
 			l.Archs = l.Archs[:1]
